@@ -22,6 +22,19 @@ type Failure struct {
 }
 
 // Result is written as result.json into the output directory.
+// A Tie is a source-level tie (lint, translator) that could not be re-established on this tree.
+// It is not a failure: bin/check runs its focused search and, finding nothing, reports it as
+// VIOLATION ... no-failing-input-found.
+type Tie struct {
+	Name   string `json:"name"`
+	Detail string `json:"detail"`
+}
+
+// BreakTie records a broken source-level tie.
+func (r *Result) BreakTie(name, detail string) {
+	r.TieBroken = append(r.TieBroken, Tie{name, detail})
+}
+
 type Result struct {
 	Property     string         `json:"property"`
 	Evaluations  int            `json:"evaluations"`
@@ -30,6 +43,7 @@ type Result struct {
 	Samples      []any          `json:"samples"`
 	Distribution map[string]int `json:"distribution"`
 	Failures     []Failure      `json:"failures"`
+	TieBroken    []Tie          `json:"tie_broken,omitempty"`
 	CaseFiles    []string       `json:"case_files"`
 	CaseCount    int            `json:"case_count"`
 	Exhaustive   bool           `json:"exhaustive"`
